@@ -319,6 +319,10 @@ def main():
                  sample={"case": jc, "impl_events": ev[:12], "reports": r["sols"]},
                  ctrl=c["ctrl"], clip=c["clip"], exact=c["exact"], mode=c["mode"],
                  n_checkpoints=len(c["cps"]), rejected=min(n_rej, 5), beyond=min(n_bey, 3), at=min(n_at, 3))
+        if any(x not in r.get("passed", []) for x in r.get("received", [])):   # (a run without any attempt receives no tolerances)
+            ck.report("C06.acceptance-test.arguments", "the error estimator / solver of the rejection loop did not receive the caller's atol, rtol, damp: "
+                      f"passed {r.get('passed')}, received {r.get('received')}", {"case": jc, "passed": r.get("passed"), "received": r.get("received")})
+            continue
         if fails:
             ck.report(classify(c, fails), f"invariant violated on the implementation: {fails[0]}",
                       {"case": jc, "failed_invariants": fails, "impl": r})
